@@ -14,10 +14,10 @@ from pbv import core, impl, integ
 FL = {"R": 8, "U": 1, "D": 2, "M": 4}
 REASON = {"Vel": "Minimum velocity reached", "Drop": "Maximum drop reached", "Alt": "Minimum altitude reached"}
 
-QUICK = dict(WindMenus="{ <<>>, <<<<6, 16>>, <<4, 32>>>>, <<<<-8, 8>>, <<7, 1000>>>>, <<<<7, 100000>>>>, <<<<4, 20>>, <<4, 20>>, <<0, 48>>>> }",
+QUICK = dict(WindMenus="{ <<>>, <<<<6, 16>>>>, <<<<6, 16>>, <<4, 32>>>>, <<<<-8, 8>>, <<7, 1000>>>>, <<<<7, 100000>>>>, <<<<4, 20>>, <<4, 20>>, <<0, 48>>>> }",
              Ranges="{24, 26, 64}", Steps="{8, 12, 2}", TimeSteps="{0, 16}", Gravs="{0, 1}", Sights="{16, -16}",
              DropLims="{-64, -64000}", AltLims="{-48, -64000}", VelLims="{0, 5}", MaxIt=200)
-THOROUGH = dict(WindMenus="{ <<>>, <<<<6, 16>>, <<4, 32>>>>, <<<<-8, 8>>, <<7, 1000>>>>, <<<<7, 100000>>>>, <<<<4, 20>>, <<4, 20>>, <<0, 48>>>>, "
+THOROUGH = dict(WindMenus="{ <<>>, <<<<6, 16>>>>, <<<<-8, 20>>>>, <<<<6, 16>>, <<4, 32>>>>, <<<<-8, 8>>, <<7, 1000>>>>, <<<<7, 100000>>>>, <<<<4, 20>>, <<4, 20>>, <<0, 48>>>>, "
                           "<<<<0, 0>>, <<-8, 12>>, <<-8, 12>>, <<6, 60>>>>, <<<<9, 100000>>>>, <<<<7, 24>>, <<9, 100000>>>> }",
                 Ranges="{8, 24, 26, 27, 64, 100}", Steps="{8, 12, 2, 32, 100}", TimeSteps="{0, 16, 40}", Gravs="{0, 1}", Sights="{16, -16, 0, 40}",
                 DropLims="{-64, -20, -64000}", AltLims="{-48, -64000}", VelLims="{0, 5}", MaxIt=300)
